@@ -9,7 +9,7 @@ import math
 import random
 from fractions import Fraction
 
-from harness import fix, tlc, tracecheck
+from harness import alpha, fix, tlc, tracecheck
 
 TRIS = [(0, 1, 1), (3, 4, 5), (4, 3, 5), (5, 12, 13), (12, 5, 13), (8, 15, 17), (15, 8, 17), (7, 24, 25), (24, 7, 25),
         (20, 21, 29), (21, 20, 29), (9, 40, 41), (40, 9, 41), (11, 60, 61), (60, 11, 61), (1, 0, 1)]
@@ -247,9 +247,19 @@ def build_c04(g, cases, arcs, quick, rnd):
                         "sa2": E_(math.sin(math.radians(a21 - 180.0))), "cb2": cosb(la2, E), "ell": e[0], "in": [lat, lon, az, s]}
             evs.append(g.ev("DCL", tag, clair))
             if rep == 0 and (not quick or rnd.random() < 0.25) and g.oblique(lat, az, E):
+                form = ["float", "dec", "hp", "gon", "dms", "ddm", "float"][len(evs) % 7]
+
                 def exact():
-                    return {"ell": g.ell_rec(e), "lat1": E_(lat), "lon1": E_(lon), "az": E_(az), "s": E_(s), "out": g.direct(lat, lon, az, s, E),
-                            "in": [lat, lon, az, s]}
+                    # latitude, longitude and azimuth handed over as floats or as objects of one of the five angle classes; the exact
+                    # geodesic starts from the angles the objects denote
+                    if form == "float":
+                        return {"ell": g.ell_rec(e), "lat1": E_(lat), "lon1": E_(lon), "az": E_(az), "s": E_(s),
+                                "out": g.direct(lat, lon, az, s, E), "in": [lat, lon, az, s], "form": form}
+                    mk = {"dec": g.an.DECAngle, "hp": g.an.dec2hpa, "gon": g.an.dec2gona, "dms": g.an.dec2dms, "ddm": g.an.dec2ddm}[form]
+                    o_lat, o_lon, o_az = mk(lat), mk(lon), mk(az)
+                    return {"ell": g.ell_rec(e), "lat1": fix.enc(alpha.angle_deg(o_lat)), "lon1": fix.enc(alpha.angle_deg(o_lon)),
+                            "az": fix.enc(alpha.angle_deg(o_az)), "s": E_(s), "out": g.direct(o_lat, o_lon, o_az, s, E),
+                            "in": [lat, lon, az, s], "form": form}
                 evs.append(g.ev("DGE", tag, exact))
             rel = rnd.choice(["reflect", "mirror", "shift", "zero", "args"])
 
